@@ -472,7 +472,7 @@ def runModel (c : Ctx) (a : List String) : String :=
   | _ => "bad-op"
 
 def run (c : Ctx) (all : List String) : String :=
-  let a := all.filter fun x => x != "" && !x.startsWith "want=" && !x.startsWith "tree=" && !x.startsWith "canon="
+  let a := all.filter fun x => x != "" && !x.startsWith "want=" && !x.startsWith "tree=" && !x.startsWith "canon=" && !x.startsWith "local="
   runModel c a ++ specPart c all a
 
 end Pelite.Driver.Res
